@@ -191,7 +191,7 @@ pub fn configs(tier: &str, seed: u64) -> Vec<Cfg> {
         idx += 1;
         if tier != "thorough" && (idx + seed) % 2 != 0 { continue; }
         if dim == 100 && target >= 3 { continue; }
-        out.push(Cfg { preset, kinetic, method, target, dim, seed: seed.wrapping_mul(7919) + idx, chains: 4, draws: if tier == "thorough" { 6000 } else if dim >= 30 { 1500 } else { 3000 }, momentum: false });
+        out.push(Cfg { preset, kinetic, method, target, dim, seed: seed.wrapping_mul(7919) + idx, chains: 4, draws: if tier == "thorough" { 20000 } else if dim >= 30 { 1500 } else { 3000 }, momentum: false });
     } } } } }
     // momentum law: diagonal presets, both kinetic energies, jitter off
     for kinetic in 0..2u8 { for (target, dim) in [(0u8, 1usize), (1, 5), (0, 5)] {
